@@ -79,8 +79,17 @@ class Ctx:
         if race:
             cmd.insert(2, "-race")
         cmd.append(".")
-        shutil.copyfile(os.path.join(REPO, "go.sum"), os.path.join(HARNESS, "go.sum"))
-        p = subprocess.run(cmd, cwd=HARNESS, env=goenv(), capture_output=True, text=True)
+        # build from a scratch copy of harness/ whose go.mod points at the tree under test
+        src = os.path.join(self.scratch, "harness-src")
+        if not os.path.isdir(src):
+            shutil.copytree(HARNESS, src)
+            with open(os.path.join(src, "go.mod")) as fh:
+                gm = fh.read()
+            gm = re.sub(r"replace github.com/hedzr/logg => .*", "replace github.com/hedzr/logg => " + REPO, gm)
+            with open(os.path.join(src, "go.mod"), "w") as fh:
+                fh.write(gm)
+            shutil.copyfile(os.path.join(REPO, "go.sum"), os.path.join(src, "go.sum"))
+        p = subprocess.run(cmd, cwd=src, env=goenv(), capture_output=True, text=True)
         if p.returncode != 0:
             # A harness that does not build against the tree cannot decide anything.
             raise Undecided("worker build failed:\n" + p.stdout + p.stderr)
@@ -131,9 +140,7 @@ class Ctx:
         cmd += list(extra or [])
         cmd.append(module + ".tla")
         e = dict(os.environ)
-        jo = "-Djava.io.tmpdir=%s -Xss64m" % d
-        if heap:
-            jo += " -Xmx%s" % heap
+        jo = "-Djava.io.tmpdir=%s -Xss64m -Xmx%s" % (d, heap or "6g")
         e["JAVA_TOOL_OPTIONS"] = (e.get("JAVA_TOOL_OPTIONS", "") + " " + jo).strip()
         t0 = time.time()
         try:
